@@ -856,6 +856,10 @@ func (m *Mirror) handleFuturePrevoteProofs(
 		return tmconsensus.HandleVoteProofsNoNewSignatures
 	case tmi.AddVoteInternalError:
 		return tmconsensus.HandleVoteProofsInternalError
+	case tmi.AddVoteConflict:
+		// The round is no longer in the future from the kernel's point of view;
+		// start over with a fresh view lookup.
+		return m.HandlePrevoteProofs(ctx, p)
 	default:
 		panic(fmt.Errorf(
 			"BUG: received unexpected AddVoteResult %d", result,
@@ -1225,6 +1229,10 @@ func (m *Mirror) handleFuturePrecommitProofs(
 		return tmconsensus.HandleVoteProofsNoNewSignatures
 	case tmi.AddVoteInternalError:
 		return tmconsensus.HandleVoteProofsInternalError
+	case tmi.AddVoteConflict:
+		// The round is no longer in the future from the kernel's point of view;
+		// start over with a fresh view lookup.
+		return m.handlePrecommitProofs(ctx, p, "(*Mirror).handleFuturePrecommitProofs")
 	default:
 		panic(fmt.Errorf(
 			"BUG: received unexpected AddVoteResult %d", result,
